@@ -113,9 +113,15 @@ fn is_listed_rejection(e: &str) -> bool {
 }
 
 /// Classify a faulted packet against its original: a burst of <= 32 bits confined to the CRC-protected bytes
-/// (everything from the total length / payload on: byte index >= 3) of a fragment, or the truncation of a
-/// payload-carrying fragment. Returns (clause, site, frag id) when the property says "always detected".
-fn always_detected_fault(orig: &[u8], got: &[u8]) -> Option<(&'static str, String, u8)> {
+/// of a fragment, or the truncation of a payload-carrying fragment. Returns (clause, site, frag id) when the
+/// property says "always detected".
+///
+/// CRC-protected bytes: in a fragment without extensions everything from byte 3 on (total length, protocol type,
+/// label, payload, trailer). In a first fragment that carries header extensions the extension ids and data are
+/// not covered: the protected bytes are the total length [3,5), the label [7,7+L) and, from the protocol type
+/// that ends the chain on, the rest of the packet; a burst is "confined" when its whole span lies in one of
+/// these wire-contiguous regions.
+fn always_detected_fault(orig: &[u8], got: &[u8], table: &ExtTable) -> Option<(&'static str, String, u8)> {
     let (k, _, gl) = wire::header(orig)?;
     if k == Kind::Complete || orig.len() != gl + 2 || orig.len() < 4 {
         return None;
@@ -152,11 +158,55 @@ fn always_detected_fault(orig: &[u8], got: &[u8]) -> Option<(&'static str, Strin
     if last - first + 1 > 32 || first / 8 < 3 {
         return None;
     }
+    let ll = wire::lt_len((orig[0] >> 4) & 3);
+    if k == Kind::First && orig.len() >= 7 && u16::from_be_bytes([orig[5], orig[6]]) < 0x600 {
+        // first fragment with header extensions
+        let p = wire::parse(orig, table).ok()?;
+        let last_is_final = p.exts.last().map(|e| e.0 < 0x100 && matches!(table.lookup(e.0), MExt::Final(_))).unwrap_or(false);
+        if p.exts.is_empty() || last_is_final || p.payload.start < 2 {
+            // a final mandatory extension stands for the protocol type: its id is spread differently; not classified
+            return None;
+        }
+        let ptoff = p.payload.start - 2;
+        let (fb, lb) = (first / 8, last / 8);
+        let region = |b: usize| -> u8 {
+            if (3..5).contains(&b) {
+                1
+            } else if b >= 7 && b < 7 + ll {
+                2
+            } else if b >= ptoff {
+                3
+            } else {
+                0
+            }
+        };
+        if region(fb) == 0 || region(fb) != region(lb) {
+            return None;
+        }
+        let site = match region(fb) {
+            1 => "first_ext:total_len".to_string(),
+            2 => "first_ext:label".to_string(),
+            _ => {
+                if fb < ptoff + 2 && lb >= ptoff + 2 && ll > 0 {
+                    // contiguous on the wire, but the label sits between protocol type and PDU in the CRC input
+                    "first_ext:ptype:spans_into_payload_with_label_between_in_crc_order".to_string()
+                } else if fb < ptoff + 2 {
+                    "first_ext:ptype".to_string()
+                } else {
+                    "first_ext:payload".to_string()
+                }
+            }
+        };
+        // the burst must not move the end of the chain (a protocol type below 0x600 continues the chain)
+        if u16::from_be_bytes([got[ptoff], got[ptoff + 1]]) < 0x600 {
+            return Some(("C03.burst_in_protected_bytes_not_detected", format!("{}:type_field_becomes_extension_id", site), fid));
+        }
+        return Some(("C03.burst_in_protected_bytes_not_detected", site, fid));
+    }
     // which field does the burst start in
     let field = match k {
         Kind::First => {
             let b = first / 8;
-            let ll = wire::lt_len((orig[0] >> 4) & 3);
             if b < 5 {
                 "total_len"
             } else if b < 7 {
@@ -1006,7 +1056,7 @@ impl Scenario for RxSim {
                         }
                     }
                     if op.has("orig") {
-                        if let Some((clause, site, fid)) = always_detected_fault(op.get_h("orig"), bytes) {
+                        if let Some((clause, site, fid)) = always_detected_fault(op.get_h("orig"), bytes, &w.table) {
                             st.inc("probe.always_detected_fault_applied");
                             w.no_delivery.insert(fid, (clause, site));
                         }
@@ -1577,9 +1627,77 @@ pub mod gen {
         Program { scenario: "rxsim", cfg: cfg(2, 128, 128, 3, &ExtTable::default()), ops }
     }
 
+    /// Search, by linear algebra over GF(2) on the reference CRC, for a burst of <= 32 bits that is contiguous on
+    /// the wire (protocol type and the first payload bytes of a first fragment with header extensions) and whose
+    /// CRC syndrome is zero. In the CRC input the label sits between protocol type and PDU, so the burst is not
+    /// contiguous there and the CRC-32 burst guarantee does not apply (DESIGN 8.3, known finding K2). The burst
+    /// does not depend on the PDU: the syndrome of a difference pattern is linear.
+    fn directed_burst_across_label(lab: &Lab, which: u64) -> Program {
+        let cr = crcref();
+        let pdu: Vec<u8> = (0..60u8).map(|i| i.wrapping_mul(37).wrapping_add(11)).collect();
+        let ptype = 0x0800u16;
+        let exts = vec![(0x0301u16, vec![0xA1u8, 0xA2, 0xA3, 0xA4])];
+        let t = fragment(&pdu, 9, ptype, lab, &exts, false, 3, Some(&[20, 45]));
+        let ptoff = 2 + 3 + 2 + lab.len() + 4;
+        let total = (pdu.len() + 2 + lab.len()) as u16;
+        let base = cr.gse(total, ptype, lab.bytes(), &pdu);
+        // syndrome of flipping wire bit b (relative to ptoff*8): bits 0..16 protocol type, then PDU bits
+        let synd = |b: usize| -> u32 {
+            let mut pt = ptype;
+            let mut d = pdu.clone();
+            if b < 16 {
+                pt ^= 0x8000 >> b;
+            } else {
+                d[(b - 16) / 8] ^= 0x80 >> ((b - 16) % 8);
+            }
+            cr.gse(total, pt, lab.bytes(), &d) ^ base
+        };
+        let mut found: Vec<Vec<usize>> = vec![];
+        // window start inside the protocol type, low bits only (the type stays >= 0x0600)
+        for s in 5..16usize {
+            // Gaussian elimination over the 32 window bits; combo tracks which bits were combined
+            let mut rows: Vec<(u32, u64)> = (0..32).map(|i| (synd(s + i), 1u64 << i)).collect();
+            let mut basis: Vec<(u32, u64)> = vec![];
+            for r in rows.drain(..) {
+                let (mut v, mut c) = r;
+                for (bv, bc) in &basis {
+                    let top = 31 - bv.leading_zeros();
+                    if v >> top & 1 == 1 {
+                        v ^= bv;
+                        c ^= bc;
+                    }
+                }
+                if v == 0 {
+                    let bits: Vec<usize> = (0..32).filter(|i| c >> i & 1 == 1).map(|i| s + i).collect();
+                    // must touch both the protocol type and the payload
+                    if bits.iter().any(|b| *b < 16) && bits.iter().any(|b| *b >= 16) {
+                        found.push(bits);
+                    }
+                } else {
+                    basis.push((v, c));
+                    basis.sort_by(|a, b| b.0.cmp(&a.0));
+                }
+            }
+        }
+        let mut f = t[0].clone();
+        if !found.is_empty() {
+            let bits = &found[(which as usize) % found.len()];
+            for b in bits {
+                let w = ptoff * 8 + b;
+                f[w / 8] ^= 0x80 >> (w % 8);
+            }
+        }
+        let ops = vec![Op::new("feed").h("hex", f).u("f", 5).h("orig", t[0].clone()), feed(t[1].clone(), 0), feed(t[2].clone(), 0)];
+        Program { scenario: "rxsim", cfg: cfg(2, 128, 128, 3, &ExtTable::default()), ops }
+    }
+
     fn gen_c03(idx: u64, rng: &mut Rng, tier: Tier) -> Program {
         if idx == 1 {
             return directed_burst_reinterpretation();
+        }
+        if idx == 2 || idx == 3 {
+            let lab = if idx == 2 { Lab::L6([1, 2, 3, 4, 5, 6]) } else { Lab::L3([9, 8, 7]) };
+            return directed_burst_across_label(&lab, rng.below(16));
         }
         let mut table = std_table();
         // every 300th run (quick) / 150th (thorough): complete single-fault neighbourhood of a small base train
@@ -1590,7 +1708,14 @@ pub mod gen {
             let n = rng.usize_in(2, 4);
             let len = rng.usize_in(n, 60);
             let pdu = pdu_bytes(len, rng.next());
-            let pkts = fragment(&pdu, fid, 0x0800, &lab, &[], false, n, None);
+            // half of the base trains carry a header extension in their first fragment (the protected bytes are
+            // then three separate regions, see always_detected_fault)
+            let exts: Vec<(u16, Vec<u8>)> = match rng.below(4) {
+                0 => vec![(0x0301, rng.bytes(4))],
+                1 => vec![(0x01, rng.bytes(4)), (0x0200 | rng.below(256) as u16, rng.bytes(2))],
+                _ => vec![],
+            };
+            let pkts = fragment(&pdu, fid, 0x0800, &lab, &exts, false, n, None);
             let mut c = cfg(rng.usize_in(1, 3), 64, 64, 3, &table);
             c.set_u("nbhd", 1);
             let mut ops: Vec<Op> = vec![];
